@@ -475,6 +475,28 @@ pub fn format_swift_amount(amount: f64, decimals: usize) -> String {
     formatted.replace('.', ",")
 }
 
+/// Format an amount that carries no currency of its own (fields 19, 37H, 61)
+///
+/// Writes at least `min_decimals` decimals and as many more as the value has, so that no
+/// digit that was read is dropped when the field is written again.
+///
+/// # Examples
+/// ```
+/// use swift_mt_message::fields::swift_utils::format_swift_amount_min_decimals;
+///
+/// assert_eq!(format_swift_amount_min_decimals(100.0, 2), "100,00");
+/// assert_eq!(format_swift_amount_min_decimals(1234.5, 2), "1234,50");
+/// assert_eq!(format_swift_amount_min_decimals(1.005, 2), "1,005");
+/// ```
+pub fn format_swift_amount_min_decimals(amount: f64, min_decimals: usize) -> String {
+    let shortest = amount.to_string();
+    let needed = shortest
+        .find('.')
+        .map(|pos| shortest.len() - pos - 1)
+        .unwrap_or(0);
+    format_swift_amount(amount, needed.max(min_decimals))
+}
+
 /// Format amount for SWIFT output with currency-specific decimal precision
 ///
 /// This is a currency-aware version of format_swift_amount that automatically
